@@ -72,12 +72,8 @@ pub fn key_for_path(p: &std::path::Path) -> [u8; 32] {
 pub const KEYRING_SERVICE: &str = "vcheck.mdk.verif";
 
 pub fn ensure_mock_keyring() {
-    static ONCE: std::sync::Once = std::sync::Once::new();
-    ONCE.call_once(|| {
-        if let Ok(store) = keyring_core::mock::Store::new() {
-            keyring_core::set_default_store(store);
-        }
-    });
+    // (an in-memory store of the harness's own: like keyring-core's mock store, plus a write fault)
+    let _ = crate::keystore::install();
 }
 
 #[derive(Debug, Default)]
